@@ -167,6 +167,72 @@ def concretise(progs, pid, tier, seed, mult, vary_cfg=True, vary_lines=True):
     return out
 
 
+def _afold(cp):
+    return [c + 32 if 65 <= c <= 90 else c for c in cp]
+
+
+def likely_same_origin(p):
+    """ORDERING HEURISTIC ONLY (never a verdict): does the request look like a same-origin one?"""
+    r = p["req"]
+    o = r["origin"]
+    if not o["present"] or o["shape"] not in ("plain", "userinfo", "path") or p["cfg"]["checkOrigin"] != "nil":
+        return False
+    auth = o["y"] + ([58] + o["port"] if o["port"] else [])
+    return _afold(auth) == _afold(r["host"])
+
+
+def order_by_origin(conc, rnd):
+    """The default origin policy is a function of (Host, Origin) of ONE request; a library that remembers earlier requests
+    (a cache keyed by the Origin string, say) answers differently depending on what the process saw before.  All programs of
+    a driver process share the library's process-wide state, so the order matters: programs that send the same Origin
+    header value are placed next to each other (same shard), and for most such groups the same-origin request(s) come
+    first and the requests of the other Hosts follow; the remaining groups are shuffled (refusals first, too)."""
+    groups, order = {}, []
+    for c in conc:
+        o = c["p"]["req"]["origin"]
+        k = tuple(o["str"]) if o["present"] and c["p"]["cfg"]["checkOrigin"] == "nil" else None
+        if k not in groups:
+            groups[k] = []
+            order.append(k)
+        groups[k].append(c)
+    out, primed = [], 0
+    for k in order:
+        g = groups[k]
+        if k is None or len(g) == 1:
+            out += g
+            continue
+        acc = [c for c in g if likely_same_origin(c["p"])]
+        rej = [c for c in g if not likely_same_origin(c["p"])]
+        if acc and rej and rnd.random() < 0.75:
+            out += acc + rej
+            primed += 1
+        else:
+            rnd.shuffle(g)
+            out += g
+    return out, primed
+
+
+def primed_refusals(conc):
+    """Coverage accounting: requests that should be refused and run, in the same driver process, AFTER a same-origin request
+    with the byte-identical Origin header value (and the reverse: same-origin requests after a refusal of that value)."""
+    a_then_r = r_then_a = 0
+    for part in core.shard(conc, core.NCPU):
+        acc, rej = set(), set()
+        for c in part:
+            o = c["p"]["req"]["origin"]
+            if not o["present"] or c["p"]["cfg"]["checkOrigin"] != "nil":
+                continue
+            k = tuple(o["str"])
+            if likely_same_origin(c["p"]):
+                r_then_a += k in rej
+                acc.add(k)
+            else:
+                a_then_r += k in acc
+                rej.add(k)
+    return dict(refusal_after_same_origin_accept_with_identical_Origin=a_then_r,
+                same_origin_accept_after_refusal_with_identical_Origin=r_then_a)
+
+
 def key_of(p):
     return json.dumps(p, sort_keys=True)
 
@@ -231,6 +297,64 @@ def find_program(trace_files, tid):
     return None
 
 
+def history_from_files(trace_files, tid):
+    """The programs that ran in the same driver process up to and including tid (shard file order = execution order)."""
+    needle = json.dumps(tid)
+    for tf in trace_files:
+        pf = os.path.join(os.path.dirname(tf), os.path.basename(tf).replace("traces.", "progs."))
+        if not os.path.exists(pf):
+            continue
+        lines = open(pf).readlines()
+        for i, line in enumerate(lines):
+            if needle in line and json.loads(line).get("id") == tid:
+                return [json.loads(l) for l in lines[:i + 1]]
+    return None
+
+
+def reproduce_after(fam, trace, seq, tid, rname):
+    """Execute seq in ONE fresh driver process and validate the trace of its last program tid alone (every trace is judged
+    on its own: the specification is history-free).  Returns the rejection or None."""
+    core.rundir(rname)
+    f = core.drive(fam, seq, rname, shards=1)
+    lines = open(f[0]).readlines()
+    start = None
+    for i, l in enumerate(lines):
+        if '"e":"Reset"' in l:
+            if start is not None:
+                lines = lines[:i]
+                break
+            if json.loads(l).get("tid") == tid:
+                start = i
+    if start is None:
+        return None
+    tf = os.path.join(os.path.dirname(f[0]), "traces.target.ndjson")
+    with open(tf, "w") as out:
+        out.writelines(lines[start:])
+    r = validate(trace, [tf], rname + "-t")
+    return r["rejections"][0] if r["rejections"] else None
+
+
+def shrink_history(fam, trace, before, prog, rname, budget):
+    """Delta-debugging (ddmin, bounded): drop parts of the history as long as the last program is still rejected."""
+    n = 2
+    while before and budget > 0:
+        chunk = (len(before) + n - 1) // n
+        removed = False
+        for i in range(0, len(before), chunk):
+            cand = before[:i] + before[i + chunk:]
+            budget -= 1
+            if reproduce_after(fam, trace, cand + [prog], prog["id"], rname):
+                before, n, removed = cand, max(n - 1, 2), True
+                break
+            if budget <= 0:
+                break
+        if not removed:
+            if chunk <= 1:
+                break
+            n = min(n * 2, len(before))
+    return before
+
+
 def run_check(pid, tier, parts, fam=FAM, trace=TRACE, assumptions=ASSUME, floors=None, rule="", describe_fn=describe,
               evidence_id=None, extra_cov=None):
     """parts: list of dict(mc=(module,cfg), conc=function(progs, rnd_seed)->concrete programs, max_progs=None).
@@ -285,6 +409,7 @@ def run_check(pid, tier, parts, fam=FAM, trace=TRACE, assumptions=ASSUME, floors
     if res["traces"] != nconc:
         raise core.Infra("trace count mismatch: %d programs, %d traces" % (nconc, res["traces"]))
     violations = []
+    nhist = 0
     for rj in res["rejections"][:MAX_REPRO]:
         prog = find_program(files, rj["tid"])
         if prog is None:
@@ -294,7 +419,23 @@ def run_check(pid, tier, parts, fam=FAM, trace=TRACE, assumptions=ASSUME, floors
         f2 = core.drive(fam, [prog], rname, shards=1)
         r2 = validate(trace, f2, rname)
         if not r2["rejections"]:
-            raise core.Infra("rejection of %s did not reproduce" % rj["tid"])
+            # Not reproducible alone: does the verdict depend on what ran before it in the same process?  The property
+            # quantifies over the requests of one process, so a rejection that needs a history is a violation too: re-drive
+            # the programs of its shard up to and including it (same order, fresh process), then shrink the history.
+            seq = history_from_files(files, rj["tid"])
+            hit = reproduce_after(fam, trace, seq, rj["tid"], rname) if seq else None
+            if not hit:
+                raise core.Infra("rejection of %s did not reproduce (neither alone nor after the %d programs that ran before it)"
+                                 % (rj["tid"], len(seq or []) - 1))
+            before = shrink_history(fam, trace, seq[:-1], prog, rname, budget=14 if nhist < 2 else 0)
+            nhist += 1
+            hit = reproduce_after(fam, trace, before + [prog], rj["tid"], rname) or hit
+            why = ("event %d (%s) is not admitted by the specification, but only after %d other program(s) ran before it in the same "
+                   "process (history-dependent verdict; alone the program is accepted): %s"
+                   % (hit["index"], hit["event"].get("e"), len(before), json.dumps(hit["event"])[:500]))
+            extra = dict(summary=describe_fn(prog), history=[describe_fn(q) for q in before[-5:]]) if describe_fn else None
+            violations.append(core.save_replay(pid, fam, dict(id=prog["id"], batch=before + [prog]), hit["trace"], why, extra=extra))
+            continue
         rj2 = r2["rejections"][0]
         why = "event %d (%s) is not admitted by the specification: %s" % (rj2["index"], rj2["event"].get("e"), json.dumps(rj2["event"])[:600])
         path = core.save_replay(pid, fam, prog, rj2["trace"], why, extra=dict(summary=describe_fn(prog)) if describe_fn else None)
@@ -333,7 +474,10 @@ def c12_floors(conc, files):
                 pmd_in_quotes += 1
     if qpair == 0 or pmd_in_quotes == 0:
         raise core.Infra("coverage floor missed: quoted-pair offers=%d, permessage-deflate inside quotes=%d" % (qpair, pmd_in_quotes))
-    return dict(port_cells_same_host=dict(cells), ext_offers_with_quoted_string=quoted, ext_offers_with_quoted_pair=qpair,
+    hist = primed_refusals(conc)
+    if min(hist.values()) == 0:
+        raise core.Infra("coverage floor missed: request order does not exercise process-wide state: %r" % hist)
+    return dict(port_cells_same_host=dict(cells), history=hist, ext_offers_with_quoted_string=quoted, ext_offers_with_quoted_pair=qpair,
                 ext_offers_with_pmd_text_inside_quotes=pmd_in_quotes)
 
 
@@ -358,7 +502,8 @@ def c12(tier):
     sfx = "quick" if q else "thorough"
     parts = [
         dict(mc=("MC_C12.tla", "MC_C12_core_%s.cfg" % sfx),
-             conc=lambda progs, seed: concretise(progs, "C12c", tier, seed, 3 if q else 1)),
+             conc=lambda progs, seed: order_by_origin(concretise(progs, "C12c", tier, seed, 3 if q else 1),
+                                                      random.Random(seed * 101 + 7))[0]),
         dict(mc=("MC_C12.tla", "MC_C12_nego_%s.cfg" % sfx),
              conc=lambda progs, seed: concretise(progs, "C12n", tier, seed + 1, 1)),
         dict(mc=("MC_C12.tla", "MC_C12_ext_%s.cfg" % sfx),
@@ -398,6 +543,7 @@ def conc_c13(progs, tier, seed):
             p["cfg"]["errfn"] = True
         p["req"]["key"]["v"] = gen_key("valid", rnd)
         out.append(dict(id="C13-%s-%d" % (tier[0], i), p=p))
+    out, _ = order_by_origin(out, rnd)
     return out
 
 
@@ -454,6 +600,9 @@ def c13_floors(conc, files):
     if missing:
         raise core.Infra("coverage floor missed: no same-host request in port cells %s" % missing)
     cov["port_cells_same_host"] = dict(cells)
+    cov["history"] = primed_refusals(conc)
+    if min(cov["history"].values()) == 0:
+        raise core.Infra("coverage floor missed: request order does not exercise process-wide state: %r" % cov["history"])
     return cov
 
 
